@@ -44,6 +44,7 @@ def check(rep: Report, ctx: Ctx) -> None:
     r76(rep, ctx, det)
     r77(rep, ctx)
     r78(rep, ctx)
+    r79(rep, ctx)
 
 
 def r71(rep: Report, ctx: Ctx, det: FuncInfo) -> None:
@@ -485,3 +486,101 @@ def r78(rep: Report, ctx: Ctx) -> None:
                        detail=f"{pairs}" + (f" -- role crossed: {bad}"
                                             if bad else ""))
     rep.analysed["handoffs_checked"] = n
+
+
+# --------------------------------------------------------------------------
+def r79(rep: Report, ctx: Ctx) -> None:
+    """Components of the Loop record that are rewritten after the record was
+    built (today: break events that coincide with the loop's normal exit are
+    swapped for a dummy break) must be rewritten before any later phase of
+    the orchestrator reads them: the body is carved out, the loop node is
+    given its break uids and the parent graph is rewired from the *final*
+    components.  Otherwise an event is copied into the body as a break node
+    and also stays behind the loop node in the parent (duplicated in the
+    nesting)."""
+    rep.rule("R7.9", "a loop component that is revised after classification "
+             "is revised before any phase reads it", 1)
+    top = ctx.func("detect_loops")
+    loop_cls = ctx.index.cls("Loop")
+    fields = [n for n, _ in loop_cls.fields()]
+    MUT = {"add", "remove", "discard", "update", "clear", "pop",
+           "difference_update", "intersection_update",
+           "symmetric_difference_update", "append", "extend"}
+    writers: dict[str, set[str]] = {f: set() for f in fields}
+    readers: dict[str, set[str]] = {f: set() for f in fields}
+    for fi in ctx.index.all_functions():
+        if fi.cls is loop_cls:
+            continue
+        pm = ctx.index.parents(fi)
+        for n in ast.walk(fi.node):
+            if isinstance(n, ast.Attribute) and n.attr in writers:
+                par = pm.get(n)
+                if isinstance(n.ctx, ast.Store) or (
+                        isinstance(par, ast.AugAssign) and par.target is n) \
+                        or (isinstance(par, ast.Attribute) and par.attr in MUT
+                            and isinstance(pm.get(par), ast.Call)):
+                    writers[n.attr].add(fi.qualname)
+                else:
+                    readers[n.attr].add(fi.qualname)
+    cfg = ctx.cfg(top)
+    # create_sub_graph_of_loop works on a private deep copy (R7.4): what its
+    # callees write is written to the copy, not to the orchestrator's record;
+    # the copy itself reads every component at that point.
+    carve = ctx.func("create_sub_graph_of_loop")
+    copy_side = ctx.cg.closure([carve]) - {carve.qualname}
+    closures: dict[int, set[str]] = {}
+    w_closures: dict[int, set[str]] = {}
+    own_reads: dict[int, set[str]] = {}
+    for nd in cfg.stmt_nodes():
+        st = nd.stmt
+        if st is None or isinstance(st, (ast.FunctionDef, ast.ClassDef)):
+            continue
+        from ..cfg import _header_parts
+        cs: set[str] = set()
+        reads: set[str] = set()
+        for part in _header_parts(st):
+            for x in ast.walk(part):
+                if isinstance(x, ast.Call):
+                    for site in ctx.cg.sites_in(top):
+                        if site.node is x:
+                            cs |= ctx.cg.closure(
+                                [c for c in site.callees if c.name !=
+                                 top.name])
+                if isinstance(x, ast.Attribute) and x.attr in writers \
+                        and isinstance(x.ctx, ast.Load):
+                    reads.add(x.attr)
+        closures[nd.id] = cs
+        w_closures[nd.id] = cs - copy_side if carve.qualname in cs else cs
+        own_reads[nd.id] = reads
+    n_armed = 0
+    for f in fields:
+        if not writers[f]:
+            continue
+        w_nodes = {nid for nid, cs in w_closures.items()
+                   if cs & writers[f]}
+        if not w_nodes:
+            continue
+        r_nodes = {nid for nid, cs in closures.items()
+                   if (cs & readers[f]) or f in own_reads[nid]
+                   or carve.qualname in cs} - w_nodes
+        n_armed += 1
+        from ..cfg import ENTRY
+        bad = [nid for nid in sorted(r_nodes)
+               if not cfg.every_path_passes(ENTRY, nid, w_nodes)]
+        # a loop body is re-entered: a reader *later in the same iteration*
+        # than the writer is what matters; dominance from ENTRY covers it
+        # because every iteration passes the writer statement first.
+        first = cfg.nodes[bad[0]].stmt if bad else None
+        rep.ob("R7.9", f"Loop.{f} is revised before it is read", not bad,
+               fi=top, node=first if first is not None else top.node,
+               detail=(f"Loop.{f} is rewritten by "
+                       f"{sorted(q.split(':')[-1] for q in writers[f])}; "
+                       + (f"'{unparse(first)[:70]}' reads it on a path that "
+                          "has not passed the revision: the phase works "
+                          "from components that are changed afterwards"
+                          if bad else
+                          f"{len(r_nodes)} reading phase(s) of detect_loops "
+                          "all come after the revision")))
+    if n_armed == 0:
+        rep.ob("R7.9", "no component is revised after classification", True,
+               fi=top, node=top.node, detail="obligation not armed")
